@@ -113,7 +113,7 @@ def emitP (st : PackState) (path : Str) (hdr : Entry) : RProg PackState :=
   else .ret { st with out := hdr :: st.out }
 
 /-- `overlayWhiteoutConverter.ConvertWrite` + the two `WriteHeader`s -/
-def overlayP (o : PackOpts) (st : PackState) (path : Str) (s : StatInfo) (hdr2 : Entry) : RProg PackState :=
+def overlayP (o : PackOpts) (st0 st : PackState) (path : Str) (s : StatInfo) (hdr2 : Entry) : RProg PackState :=
   let hdr3 : Entry :=
     if isOverlayWhiteout s hdr2 then
       let sp := splitLast hdr2.name
@@ -130,7 +130,7 @@ def overlayP (o : PackOpts) (st : PackState) (path : Str) (s : StatInfo) (hdr2 :
           .ret { st with out := wo :: hdr4 :: st.out }
         else emitP st path hdr3
       | .err .ENODATA => emitP st path hdr3
-      | _ => .ret st)                   -- lgetxattr error: entry left out
+      | _ => .ret st0)                  -- lgetxattr error: entry left out, its inode forgotten again
 
 /-- after lstat (+ readlink) (+ lgetxattr): bookkeeping, ownership, conversion, emission -/
 def afterStatP (o : PackOpts) (st : PackState) (path name : Str) (s : StatInfo) (link : Str) (capR : Res) :
@@ -138,10 +138,10 @@ def afterStatP (o : PackOpts) (st : PackState) (path name : Str) (s : StatInfo) 
   let hdr0 := buildHeader name s link capR
   let ls := linkStage st name s hdr0
   match ownerOf o s ls.1 with
-  | none => .ret ls.2                    -- untranslatable owner: entry left out
+  | none => .ret st                      -- untranslatable owner: entry left out, its inode forgotten again
   | some (u, g) =>
     let hdr2 : Entry := { ls.1 with uid := u, gid := g }
-    if o.overlay then overlayP o ls.2 path s hdr2 else emitP ls.2 path hdr2
+    if o.overlay then overlayP o st ls.2 path s hdr2 else emitP ls.2 path hdr2
 
 /-- `tarAppender.addTarFile(path, name)`; an error means the entry is left out (logged) -/
 def addTarFileP (o : PackOpts) (st : PackState) (path name : Str) : RProg PackState :=
